@@ -537,7 +537,7 @@ LZ_INV = ["TypeOK", "XWellFormed", "XContent", "XSizeLimit", "XMembersFull", "XS
 
 
 def lz_consts(variant=None, **kw):
-    c = dict(Dicts="{4096,5000,65536,70000}", LimitOpts="{0,3000,6000,80000}", WriteSizes="{2500,6000,90000}", MaxBytes="180000",
+    c = dict(Dicts="{4096,5000,65536,70000}", LimitOpts="{0,3000,6000,80000}", WriteSizes="{2500,6000,90000}", MaxBytes="180000", MaxCalls="3",
              MaxMembers="6", CSizes="{7}", Fars="{FALSE,TRUE}", DictByteRoundsUp=ASBUILT["DictByteRoundsUp"])
     if variant:
         c.update(variant)
@@ -646,7 +646,7 @@ def family_lzip(ctx, j, quick, rnd, pool):
     f_design = pool.submit(lz_model, lz_consts(), LZ_INV, 3)
     f_export = pool.submit(lz_model, lz_consts(Dicts="{4096,4608,5000,65536,70000,131072}" if quick else "{4096,4097,4608,4609,5000,65536,70000,98304,131072}",
                                                WriteSizes="{2500,6000,90000}" if quick else "{1,2500,6000,70000,90000}",
-                                               MaxBytes="180000" if quick else "200000", MaxMembers="8"), ["ExportL"], 3, 900, False)
+                                               MaxBytes="180000" if quick else "200000", MaxCalls="3" if quick else "4", MaxMembers="8"), ["ExportL"], 3, 900, False)
     probes = []
     val, what = REGRESSIONS["DictByteRoundsUp"]
     if ASBUILT["DictByteRoundsUp"] != val:
@@ -748,7 +748,7 @@ LZ_TRACE_INV = {"C02": ["TWellFormed", "TRoundTrip", "TContent"], "C03": ["TWell
                 "C18": ["TSizeLimit", "TMtCount"]}
 LZ_INV_PROP = {"WellFormed": ("C02", "C03"), "RoundTrip": ("C02",), "Content": ("C02",), "Ref": ("C03",), "MtOrder": ("C12",),
                "SizeLimit": ("C18",), "MtCount": ("C18",)}
-TRACE_CONSTS_LZ = dict(Dicts="{4096}", LimitOpts="{0}", WriteSizes="{1}", MaxBytes="2000000000", MaxMembers="1000000", CSizes="{7}",
+TRACE_CONSTS_LZ = dict(Dicts="{4096}", LimitOpts="{0}", WriteSizes="{1}", MaxBytes="2000000000", MaxCalls="1000000", MaxMembers="1000000", CSizes="{7}",
                        Fars="{FALSE}")
 
 
@@ -821,16 +821,18 @@ def dict_byte(ctx, j, quick, pool):
     j.nruns += len(sizes)
     j.classes.add(("dictbyte", "covered", len(sizes) - len(uncovered)))
     if uncovered:
-        d0 = uncovered[0]["d"]
-        # implementation witness: a member written with that dictionary and data that uses it
-        s = {"id": f"dictbyte-{d0}", "fam": "lz_write", "seed": 7, "opt": {"preset": 0, "dict": d0}, "period": d0 - 1,
+        # implementation witness: a member written with such a dictionary and data whose matches lie between the declared
+        # and the used dictionary size (take the small size with the widest gap)
+        small = [x for x in uncovered if x["d"] <= (1 << 20)] or uncovered
+        w = max(small, key=lambda x: (x["d"] - x["dec"]) / x["d"])
+        d0 = w["d"]
+        s = {"id": f"dictbyte-{d0}", "fam": "lz_write", "seed": 7, "opt": {"preset": 0, "dict": d0}, "period": (d0 + w["dec"]) // 2 + 1,
              "calls": [{"op": "write", "n": 3 * d0}, {"op": "finish"}], "reads": [4096]}
         r1 = run_scenarios([s])[0]
-        before = len(ctx.violations) + len(ctx.known_hits)
         judge_lz_write(j, s, r1, None, "dictbyte-boundary")
         j.classes.add(("dictbyte", "uncovered", len(uncovered)))
-        if len(ctx.violations) + len(ctx.known_hits) == before and "C02" in j.props:
-            raise ToolError(f"encode_dict_size under-declares the dictionary for {len(uncovered)} sizes (first {d0}) but the member still decodes")
+        if r1.get("rt", {}).get("ok") and r1["rt"]["cmp"]["equal"]:
+            raise ToolError(f"encode_dict_size under-declares the dictionary for {len(uncovered)} sizes (e.g. {d0} -> {w['dec']}) but the member still decodes")
     if not r.ok:
         if not uncovered and r.violated in ("CoversInv",):
             raise ToolError(f"TLC reports {r.violated} for the as-built LzipDict but the crate's function covers all sizes: the model misrepresents the code")
